@@ -117,6 +117,7 @@ def _absent(ctx, py):
     COLS_OF = dict(Position=["lat", "lon", "alt"], NedVelocity=["VN", "VE", "VD"], BodyVelocity=["VX", "VY", "VZ"])
     tq = sp.Symbol("t_query", real=True)
     present_f = sp.Function("stamp_present")
+    label_fails, label_evals, t_label = [], 0, time.time()
     for cls in (M.Position, M.NedVelocity, M.BodyVelocity):
         t0 = time.time()
         cols = COLS_OF[cls.__name__]
@@ -213,6 +214,24 @@ def _absent(ctx, py):
             uns = cls(pd.DataFrame(np.arange(15.0).reshape(5, 3) + 1.0, index=order, columns=data.columns), 1.0)
             w_pre += [uns.compute_matrices(t, pva, em) is not None for t in (1.0, 2.0, 3.0, 4.0, 5.0)]
             w_abs += [uns.compute_matrices(t, pva, em) is None for t in (0.5, 2.5, 6.0)]
+            # ... and the residual at a present stamp is computed from THE ROW LABELLED with that stamp: the same rows stored in
+            # time order give bit-identical (z, H, R)
+            try:
+                rows = np.array([[55.0 + 1e-4 * k, 37.0 - 2e-4 * k, 100.0 + 3.0 * k] if cls is M.Position else [1.0 + k, -2.0 - 0.5 * k, 0.25 * k]
+                                 for k in range(5)])
+                tab = pd.DataFrame(rows, index=order, columns=data.columns)
+                pva_l = pd.Series([55.0, 37.0, 100.0, 3.0, -4.0, 0.5, 1.0, -2.0, 30.0], index=NAMES)
+                m_uns, m_srt = cls(tab.copy(), 1.0), cls(tab.sort_index(), 1.0)
+                for t in (1.0, 2.0, 3.0, 4.0, 5.0):
+                    label_evals += 1
+                    r_u, r_s = m_uns.compute_matrices(t, pva_l, em), m_srt.compute_matrices(t, pva_l, em)
+                    if r_u is None or r_s is None or not all(np.array_equal(a_, b_) for a_, b_ in zip(r_u, r_s)):
+                        label_fails.append(dict(sensor=cls.__name__, rows_stored_in_order=order, time=t,
+                                                z_rows_as_stored=None if r_u is None else [float(x) for x in r_u[0]],
+                                                z_rows_in_time_order=None if r_s is None else [float(x) for x in r_s[0]]))
+            except Exception as exc:
+                label_evals += 1
+                label_fails.append(dict(sensor=cls.__name__, rows_stored_in_order=order, error=repr(exc)[:200]))
         ok = not bad and all(w_abs) and all(w_pre)
         if ok and engine is not None:
             ok = None                      # undecided: the symbolic part could not run and the witnesses found nothing
@@ -222,6 +241,11 @@ def _absent(ctx, py):
                else ("; ".join(bad)[:500] or "native witnesses: absent times -> None %s, present times -> matrices %s" % (w_abs, w_pre)),
                cex=None if ok else dict(paths=bad, absent=w_abs, present=w_pre),
                native=None if ok else dict(reproduced=not (all(w_abs) and all(w_pre)), absent_times_return_None=w_abs, present_times_return_matrices=w_pre))
+    ctx.standin("C06.rt.row_by_label", "3 sensor classes x 3 storage orders of a 5-row table (shuffled, newest first, two logs appended) x 5 stamps: (z, H, R) at a "
+                "stamp bit-identical to the same rows stored in time order (the residual is taken from the row LABELLED with the stamp)",
+                label_evals, label_fails, time_s=time.time() - t_label)
+
+
 
 
 def _history(ctx, py):
